@@ -676,6 +676,12 @@ def _special_recipes(tier):
         sol = [[0, c] for c in range(g)]
         out.append(dict(base, name=f"corridor{g}", grid_n=g, mazes=[dict(clist=_bits(cl), sol=sol, meta=_hand_meta(g))], mode="permaze",
                         tag=f"int8-boundary-{g}", guard_ok=ok))
+    # many mazes: a store may keep long lists differently from short ones (zanj externalises lists of >= 256 items)
+    for n_many in ((256, 300) if tier == "quick" else (255, 256, 257, 300, 1000)):
+        cl2 = np.zeros((2, 2, 2), dtype=bool); cl2[1, 0, 0] = True; cl2[0, 0, 1] = True
+        sols = [[[0, 0], [0, 1]], [[0, 0], [0, 1], [1, 1]], [[1, 1]], [[0, 1], [0, 0]]]
+        out.append(dict(base, name=f"many{n_many}", grid_n=2, mazes=[dict(clist=_bits(cl2), sol=sols[i % 4], meta=_hand_meta(2)) for i in range(n_many)],
+                        mode="permaze", tag="many-mazes"))
     cl1 = np.zeros((2, 1, 1), dtype=bool)
     out.append(dict(base, name="g1_in_g3", grid_n=3, mazes=[dict(clist=_bits(cl1), sol=[[0, 0]], meta=_hand_meta(1), g=1)], mode="permaze",
                     tag="grid-mismatch", guard_ok=False))
@@ -750,6 +756,10 @@ def run(ctx):
                 rc["name"] = f"c{k}m{j}"; rc.pop("cfg_n_delta", None)
                 rc["mazes"] = rc["mazes"][:crng.choice([1, 2, 4, 9])]
                 members.append(rc)
+        if crng.random() < 0.35 and members and len(members[0]["mazes"]) >= 2:
+            # shards of one dataset: members that share name and configuration (only the maze count differs)
+            b0 = members[0]; k2 = crng.randrange(1, len(b0["mazes"]))
+            members = [dict(b0, mazes=b0["mazes"][:k2]), dict(b0, mazes=b0["mazes"][k2:])] + members[1:]
         lens = [len(m["mazes"]) for m in members]
         thr = crng.choice([None, 1, max(lens) + 1, max(1, min(l for l in lens if l > 0) if any(lens) else 1), 2, 0 if k % 8 == 7 else 3])
         results.append(eval_collection(members, thr, collected=(k % 5 == 0), workdir=wd))
